@@ -110,7 +110,7 @@ Section Safety.
     st_ok tr st -> step table reset_fixed factor cap (List.length tr) st e = (st', o) ->
     st_ok (tr ++ [e]) st' /\ Forall (out_ok (tr ++ [e])) o.
   Proof.
-    intros H E. destruct e as [cls obj | sid level timeout now | now]; cbn in E.
+    intros H E. destruct e as [cls obj | sid level timeout now | now | |]; cbn in E.
     - inversion E; subst; clear E. split; [|constructor]. apply st_ok_app.
       unfold st_ok, trigger_all. rewrite Forall_map. eapply Forall_impl; [|exact H].
       intros [k s] Hs. cbn. apply sess_trigger_ok. exact Hs.
@@ -125,6 +125,8 @@ Section Safety.
         apply Forall_app; split; [apply st_ok_app; auto | constructor; auto].
     - destruct (tick_all_ok _ _ _ _ _ _ H E) as [A B]. split; [apply st_ok_app; auto|].
       eapply Forall_impl; [|exact B]. intros a. apply out_ok_app.
+    - inversion E; subst. split; [apply st_ok_app; auto | constructor].
+    - inversion E; subst. split; [apply st_ok_app; auto | constructor].
   Qed.
 
   Lemma run_from_ok : forall suf pre st st' o,
